@@ -203,26 +203,10 @@ theorem C11_save_resolves (x : Book C) (ops : List (Op E))
   intro n ts hm t ht
   exact closed_has h hm ht
 
-/-- FULL STATEMENT of `C11_save` (DESIGN.md): the three clauses below AND, for a raw sheet at position p,
-      `lookup (rels (sheet p)) = relsOf own.targets` (the relationships part next to the sheet is THIS sheet's) and
-      every other closure part under its original name with its original content (needs the hypothesis that all
-      raw sheets come from one package, i.e. equal names carry equal content), AND `relsHaveSource`.
-    Proved for all histories: names unique, each position exactly its sheet part (raw bytes / serialised
-    in-memory content incl. edits), workbook.xml order, every relationship resolves.  The remaining clause (identity
-    of the relationships/closure CONTENT per raw sheet) is decided on the witnesses below, and checked on every
-    save of the implementation by the harness (byte comparison of every copied sheet and of every part of its
-    closure against the file that was read, walking both relationship graphs in parallel). -/
-theorem C11_save_partial (x : Book C) (ops : List (Op E))
-    (hraw : RawsOk (run cd x ops).sheets)
-    (hprof : ∀ s ∈ (run cd x ops).sheets, ∀ l, s.body = .loaded l → ∀ n ∈ profNames l.prof, NotSheet n)
-    (hw : ∀ s ∈ (run cd x ops).sheets, SheetWritable s) :
-    let b := run cd x ops
-    ((save cd b).parts.map (·.1)).Nodup ∧
-    ((∀ j s, b.sheets[j]? = some s → lookupPart (save cd b).parts (.sheet (j + 1)) = some (expectedSheet s)) ∧
-     (∀ k, b.sheets.length + 1 ≤ k → hasPart (save cd b).parts (.sheet k) = false) ∧
-     (save cd b).names = b.sheets.map (·.name)) ∧
-    (∀ n ts, (n, Content.relsOf ts) ∈ (save cd b).parts → ∀ t, some t ∈ ts → hasPart (save cd b).parts t = true) :=
-  ⟨C11_save_names_unique cd x ops, C11_save_sheet_parts cd x ops hraw hprof, C11_save_resolves cd x ops hw⟩
+/- The full statement `C11_save` — the three clauses above AND, for every raw sheet, ITS relationships next to its sheet
+   part, every part of its closure under its original name with the content of the package that was opened, and
+   `relsHaveSource` — is proved for all histories in `Umya/Thm/C11Save.lean` from the package-consistency invariant
+   (`C11_consistent_reachable`).  The former `C11_save_partial` (the conjunction of the three theorems above) is subsumed by it. -/
 
 /-! ### the repaired defect, and the fixed code on the same witness -/
 
